@@ -59,6 +59,12 @@ def series(case):
     tail = case.get("tail", 0)
     if tail:
         a = np.concatenate([a, np.full(tail, a[-1])])
+    out = case.get("outlier")
+    if out:
+        # one sample many orders of magnitude larger than its neighbours (a spike / an un-zeroed first sample): differences
+        # between the ordinary samples are far below the resolution of anything computed relative to the outlier
+        a = a.copy()
+        a[out[0] % len(a)] = out[1]
     p2 = case.get("pow2")
     if p2 and spec.get("as") != "int":
         a = a * 2.0 ** p2  # exact rescaling: the answer does not depend on the unit of the series
@@ -90,6 +96,9 @@ def _cases(draw, max_n=5000):
         case["tail"] = draw(st.integers(1, 5))
     if draw(st.integers(0, 5)) == 0:
         case["pow2"] = draw(st.sampled_from([-300, -200, -60, -30, 60, 200, 300]))
+    elif draw(st.integers(0, 3)) == 0:
+        case["outlier"] = [draw(st.sampled_from([0, 0, 1, -1, 3, 17])),
+                           draw(st.sampled_from([-1.0, 1.0])) * 2.0 ** draw(st.integers(40, 70))]
     return case
 
 
@@ -103,6 +112,8 @@ def _classify(ctx, case, a, r_all, pl):
             ctx.cls("coarse-grid")
         if case.get("offset"):
             ctx.cls("offset")
+        if case.get("outlier"):
+            ctx.cls("outlier")
         if case.get("pow2") and spec.get("as") != "int":
             ctx.cls("rescaled")
     ctx.cls(gen.size_class(len(a)))
@@ -219,7 +230,7 @@ def exhaustive(case, ctx):
              "(2^k up to 2^30 or a real), rescaled by 2^k (|k| <= 300), with a leading plateau (40 %) and a trailing plateau; "
              "non-trivial = at least one interior extremum",
         oracle="reference model (exact index equality) cross-checked against the statement's validity predicate; input unchanged",
-        require={"lead-plateau": 0.25, "interior-plateau-extremum": 0.10, "offset": 0.15, "n>512": 0.10, "rescaled": 0.05},
+        require={"lead-plateau": 0.25, "interior-plateau-extremum": 0.10, "offset": 0.15, "n>512": 0.10, "rescaled": 0.05, "outlier": 0.05},
         min_nontrivial=0.3)
 def random(case, ctx):
     a, arg = series(case)
